@@ -33,7 +33,7 @@ class C04(Spec):
     oracle_filter = {"request_shape", "accept_known", "no_plaintext_connection", "requests_equal_model", "well_formed_result"}
     rule = ("URLs fetched through client.FetchURL / FetchUnknown against the simulator, which records every byte of every connection "
             "and counts connections to a plaintext canary port: hostile paths and queries (percent-encoded CR/LF, spaces, quotes, "
-            "'..', very long), userinfo, explicit ports, fragments, IPv6-literal and other hosts that are not dialled, http:, gopher: "
+            "'..', very long), userinfo, explicit ports, fragments, an IPv6-literal host that answers ([::1]:port: brackets in the Host header), IPv6-literal and other hosts that are not dialled, http:, gopher: "
             "and scheme-less strings, other schemes (ftp, gemini, wss, file, https+x ...) in front of hosts that would answer over TLS, typed or as a redirect target, redirects whose Location points at the plaintext canary or carries encoded CR/LF; WEBFINGER names as typed "
             "by the user (client.ResolveWebfinger): accounts carrying CR LF, spaces, '&resource=', NUL/DEL/0xFF bytes, domains with "
             "CR LF, paths, queries, '@', tabs appended, JRD answers with the self link first/second/missing/malformed. Oracle: each "
@@ -61,6 +61,16 @@ class C04(Spec):
                 u = "https://%s%s/default-port%d?x=1" % (w.host443(), w.prefix, rng.randrange(100))
                 w.serve(u, netgen.ok_json({"type": "Note", "content": "on 443"}))
                 w.fetch(u)
+            elif r < 0.17 and w.host6():
+                # an IPv6 literal as host: the brackets belong to the URL's host and to the Host header
+                u = "https://%s%s/v6-%d?x=%d" % (w.host6(), w.prefix, rng.randrange(100), rng.randrange(9))
+                w.serve(u, netgen.ok_json({"type": "Note", "content": "on ::1"}))
+                if rng.random() < 0.5:
+                    w.fetch(u)
+                else:
+                    via = w.url(k, "/to-v6-%d" % rng.randrange(1000))
+                    w.serve(via, netgen.redirect(u))
+                    w.fetch(via)
             elif r < 0.3:
                 self.webfinger_op(rng, w, k)
             elif r < 0.6:
